@@ -406,6 +406,15 @@ class StackWorld(object):
         REC.fault('client_close')
         self.client.DispatcherClose()
       return
+    if do == 'crash_idle':
+      # every endpoint the aperture currently keeps idle (not dialled) goes away
+      lb = self.balancers[0] if self.balancers else None
+      for e in sorted(str(x) for x in getattr(lb, '_idle_endpoints', ())):
+        for i, ep in enumerate(self.net.by_index):
+          if e == '%s:%d' % (ep.host, ep.port):
+            self.apply_fault({'do': 'crash', 'ep': i})
+            REC.probe('idle_member_crashed')
+      return
     i = f['ep']
     if i >= len(self.servers):
       return
@@ -470,6 +479,15 @@ class StackWorld(object):
       args = (mod.Pair(a=arg, b=int(cid[1:])),)
     else:
       args = (arg,)
+    kwargs = {}
+    if m == 'join':
+      # further arguments, partly falsy, some or all of them passed by keyword
+      j = op['join']
+      full = (arg, j['t'], j['n'], j['f'])
+      npos = {'none': 4, 'some': 2, 'all': 1}[j['kw']]
+      args = full[:npos]
+      kwargs = dict(list(zip(('s', 't', 'n', 'f'), full))[npos:])
+      REC.probe('keyword_arguments' if kwargs else 'several_arguments')
     if op.get('badarg'):
       args = (srv.Unserialisable(cid),)      # an object where the interface declares a string
       REC.probe('unserialisable_argument')
@@ -497,9 +515,11 @@ class StackWorld(object):
                        for n in nodes)
     if op.get('via') == 'proxy' and self.closed_at is None:
       fn = getattr(self.client, m + '_async')
-      c = self.tracker.issue(None, cid, m, args, timeout=None, spec=op, fn=lambda: fn(*args))
+      c = self.tracker.issue(None, cid, m, args, timeout=None, spec=op, fn=lambda: fn(*args, **kwargs))
     else:
-      c = self.tracker.issue(self.dispatcher, cid, m, args, timeout=op.get('timeout'), spec=op)
+      c = self.tracker.issue(self.dispatcher, cid, m, args, timeout=op.get('timeout'), spec=op, kwargs=kwargs)
+    if m == 'join':
+      c.extra['full_args'] = full
     c.extra['all_down_at_issue'] = all_down
     c.extra['wall0'] = wall0
     if self.scn.get('close_on') == cid and c.ar is not None and self.closed_at is None:
@@ -612,7 +632,7 @@ class StackWorld(object):
           REC.violation('C02', 'unknown_request', 'server %s decoded %s%r which no caller issued' % (
             s.name, r.method, r.args))
           continue
-        if r.method != c.method or tuple(r.args) != tuple(c.args):
+        if r.method != c.method or tuple(r.args) != tuple(c.extra.get('full_args', c.args)):
           REC.violation('C02', 'request_mismatch',
                         'call %s issued %s%r but server decoded %s%r' % (c.id, c.method, c.args, r.method, r.args),
                         {'nonascii': any(ord(ch) > 127 for ch in str(c.args))})
